@@ -9,7 +9,8 @@ import zlib
 
 from . import programs
 
-TRAVERSAL_DEFECTS = ['notclass', 'nobase', 'noprocess', 'unannotated_some', 'unannotated_default', 'unannotated_all', 'generic1',
+TRAVERSAL_DEFECTS = ['notclass', 'nobase', 'noprocess', 'unannotated_some', 'unannotated_kwargs', 'unannotated_default', 'unannotated_all',
+                     'generic1',
                      'generic2']
 ALL_DEFECTS = TRAVERSAL_DEFECTS + ['rec_noproto', 'rec_noaddl']
 
@@ -31,11 +32,24 @@ def from_program(prog, unnamed_switch=False, generic=()):
             marks.append(m)
         decls.append({'id': n['id'], 'defect': 'none', 'marks': marks, 'mode': n.get('mode', 'thread'),
                       'generic': n['id'] in generic and not n.get('derives'), 'derives': n.get('derives'),
-                      'plainbase': bool(n.get('plainbase')),
+                      'plainbase': bool(n.get('plainbase')), 'ntype': n.get('ntype'),
                       # every other generic base documents its run method: the node made by build_node inherits it
                       'gdoc': zlib.crc32(n['id'].encode()) % 2 == 0,
                       # every third one is derived twice (build_node of a build_node result)
                       'gtwice': zlib.crc32(n['id'].encode()) % 3 == 0})
+    for x in decls:
+        # every other reusable basic node has, next to its generic inputs, a FIXED dependency of its own (on the input
+        # node) that the derived node must keep
+        srcs = {m['node'] for m in x['marks'] if m['kind'] in ('input', 'rec')}
+        if x['generic'] and x['id'] != prog['input'] and prog['input'] not in srcs and zlib.crc32(x['id'].encode()) % 2 == 1:
+            x['gfixed'] = True
+            # the derived run method lists the basic node's own dependencies first, then the redefined ones: the index in
+            # the id of a one-of head is the parameter's position in that list
+            for i, m in enumerate(x['marks']):
+                if m['kind'] == 'oneof':
+                    m['head'] = programs.oneof_head(x['id'], i + 1)
+            x['marks'].insert(0, {'kw': 'zfix', 'kind': 'input', 'node': prog['input'], 'sw': '-', 'cases': [], 'cands': [],
+                                  'start': '-', 'max': '0', 'name': '-', 'head': '-'})
     byid = {x['id']: x for x in decls}
     for x in decls:
         # a subclass shows the documentation of the run method it inherits: the root ancestor's, or - when that one
@@ -64,7 +78,7 @@ def expected_entry(x):
               ('generated node %s' % x['id']) if x.get('root_generic') else 'does the work of %s' % x.get('root', x['derives'])
         return {'ename': x['id'], 'everbose': 'Node ' + x['id'], 'edoc': doc, 'egeneric': False, 'etype': 'processor'}
     return {'ename': x['id'], 'everbose': 'Node ' + x['id'], 'edoc': 'does the work of %s' % x['id'], 'egeneric': False,
-            'etype': 'None' if x.get('plainbase') else 'processor'}
+            'etype': 'None' if x.get('plainbase') else (x.get('ntype') or 'processor')}
 
 
 def to_tla(d):
@@ -110,6 +124,8 @@ def mutations(d):
         for defect in ALL_DEFECTS:
             if defect == 'unannotated_all' and x['marks']:
                 continue          # only expressible on a node without marks
+            if defect == 'unannotated_kwargs' and any(m['kw'] == 'kwargs' for m in x['marks']):
+                continue          # the name is taken
             if defect == 'rec_noproto' and x['id'] not in dests:
                 continue
             if defect == 'rec_noaddl' and x['id'] not in starts:
@@ -136,7 +152,7 @@ def mutations(d):
 
 def emit(d):
     """Python source of the declaration set"""
-    L = ['import typing as t',
+    L = (['from __future__ import annotations'] if d.get('future') else []) + ['import typing as t',
          'from ml_pipeline_engine.dag_builders.annotation.marks import GenericInput, Input, InputGeneric, InputOneOf',
          'from ml_pipeline_engine.dag_builders.annotation.marks import RecurrentSubGraph, SwitchCase',
          'from ml_pipeline_engine.node import ProcessorBase, RecurrentProcessor, build_node',
@@ -174,6 +190,8 @@ def emit(d):
         tail = []
         if defect in ('unannotated_some', 'unannotated_all'):
             params.append('bare')
+        if defect == 'unannotated_kwargs':
+            params.append('kwargs')        # an ordinary, un-annotated parameter that happens to be called kwargs
         if nid == d['input']:
             tail.append('x=0' if defect == 'unannotated_all' else 'x: int = 0')
         for m in x['marks']:
@@ -185,7 +203,8 @@ def emit(d):
         if nid in starts and defect != 'rec_noaddl':
             tail.append('additional_data=None' if defect == 'unannotated_all' else 'additional_data: t.Any = None')
         ret = '' if defect == 'unannotated_all' else ' -> t.Any'
-        if defect in ('unannotated_some', 'unannotated_default') and not x['marks'] and nid != d['input'] and nid not in starts:
+        if defect in ('unannotated_some', 'unannotated_kwargs', 'unannotated_default') and not x['marks'] and nid != d['input'] \
+                and nid not in starts:
             tail.append('y: int = 0')
         if defect == 'unannotated_default':
             tail.append('bare=2')          # no annotation, but a default value: still an un-annotated parameter
@@ -198,7 +217,10 @@ def emit(d):
         tags = {'inline': '(NodeTag.non_async,)', 'process': '(NodeTag.process,)'}.get(x.get('mode'), '()')
         adef = 'async def' if x.get('mode') == 'coro' else 'def'
         if x.get('generic'):
-            gparams = ['self'] + ['%s: GenericInput(t.Type[ProcessorBase])' % m['kw'] for m in x['marks']]
+            gmarks = [m for m in x['marks'] if not (x.get('gfixed') and m['kw'] == 'zfix')]
+            gparams = ['self'] + ['%s: GenericInput(t.Type[ProcessorBase])' % m['kw'] for m in gmarks]
+            if x.get('gfixed'):
+                gparams.append('zfix: Input(N_%s)' % d['input'])
             if defect == 'generic_partial':
                 gparams.append('left_generic: InputGeneric(t.Type[ProcessorBase])')
             # one more generic input, bound to a constant through dependencies_default (build_node accepts that)
@@ -211,7 +233,7 @@ def emit(d):
             if x.get('gdoc'):
                 L += ['        """generic work of %s"""' % nid]
             L += ['        return None', '']
-            deps = ', '.join('%s=%s' % (m['kw'], ann(m)) for m in x['marks'])
+            deps = ', '.join('%s=%s' % (m['kw'], ann(m)) for m in gmarks)
             basis = 'G_%s' % nid
             if x.get('gtwice') and defect == 'none':
                 # a reusable node derived from a reusable node derived from the basic node
@@ -223,6 +245,8 @@ def emit(d):
             continue
         L += ['class %s(%s):' % (cls, base), '    """generated node %s"""' % nid, '    name = %r' % nid,
               '    verbose_name = %r' % ('Node ' + nid), '    tags = %s' % tags]
+        if x.get('ntype') and defect != 'nobase':
+            L += ['    node_type = %r' % x['ntype']]         # a node type of the user's own (docs: 'ml_model')
         if defect == 'nobase':
             L += ['    node_type = "processor"']
         if defect == 'noprocess':
@@ -251,7 +275,7 @@ def load(d, directory):
 
 def short(nid):
     nid = str(nid)
-    for prefix in ('processor__', 'node__'):
+    for prefix in ('processor__', 'node__', 'ml_model__'):
         if nid.startswith(prefix):
             return nid[len(prefix):]
     return nid
